@@ -91,11 +91,11 @@ def run_impl(cases):
         except Exception as e:
             out.append({'out': 'unbuildable:' + type(e).__name__, 'alts': [], 'valts': []})
             continue
-        r = {'out': K.run_assert(ao, K.build_val(c['c']['val'])), 'alts': [], 'valts': []}
+        r = {'out': K.run_assert(ao, K.build_val_for_case(c)), 'alts': [], 'valts': []}
         for a2 in c['x'].get('alts', []):
-            r['alts'].append(K.run_assert(K.build_ann(a2), K.build_val(c['c']['val'])))
+            r['alts'].append(K.run_assert(K.build_ann(a2), K.build_val_for_case(c)))
         for v2 in c['x'].get('valts', []):
-            r['valts'].append(K.run_assert(ao, K.build_val(v2)))
+            r['valts'].append(K.run_assert(ao, K.build_val_for_case(c, v2)))
         out.append(r)
     return out
 
